@@ -10,6 +10,7 @@ CONSTANTS NS = 2
   Sweeps <- BT
   Caches <- BB
   DropInPort = TRUE
+  DeleteOnMove = TRUE
   IdleTO = 10
   HardTO = 30
   DropTO = 10
@@ -21,6 +22,7 @@ VIEW viewN
 CONSTRAINT Bound
 INVARIANT TypeOK
 INVARIANT NoLeak
+INVARIANT CtlTrue
 INVARIANT UniqueHit
 INVARIANT CacheSound
 PROPERTY Conforms
